@@ -1,13 +1,27 @@
 #!/bin/bash
-# seed_check.sh <patch.diff> <prop,prop,...> : apply the seeded change to /repo, run the checks, undo
+# seed_check.sh <patch.diff> <prop,prop,...> [worktree]
+# Applies the seeded change to /repo (git -C /repo apply), runs the checks, undoes it.
+# If the patch no longer applies to /repo's HEAD (because of a later fix: commit), the
+# change is judged differentially in its own scratch worktree instead: violations with
+# the patch minus violations without it.
 set -u
-patch="$1"; props="$2"
-cd /repo && git status --short | grep -v '^??' | grep . && { echo "/repo not clean"; exit 2; }
-git -C /repo apply "$patch" || exit 2
+patch="$1"; props="$2"; wt="${3:-}"
 vd=$(mktemp -d /tmp/seedv-XXXX); cp /verif/known-findings.txt $vd/
-for p in ${props//,/ }; do
-  out=$(/verif/bin/mlcheck -prop $p -verif $vd 2>&1); e=$?
-  echo "[$p] exit=$e"; echo "$out" | grep -E "^\s+construct:|CHECKER-ERROR" | cut -c1-200 | head -8
-done
-git -C /repo checkout -- .
+run() { # repo dir
+  for p in ${props//,/ }; do
+    out=$(/verif/bin/mlcheck -prop $p -repo "$1" -verif $vd 2>&1); e=$?
+    echo "[$p] exit=$e"; echo "$out" | grep -E "^\s+construct:|CHECKER-ERROR" | cut -c1-200 | sort
+  done
+}
+if git -C /repo diff --quiet && git -C /repo apply --check "$patch" 2>/dev/null; then
+  git -C /repo apply "$patch"
+  run /repo | head -40
+  git -C /repo checkout -- .
+else
+  [ -n "$wt" ] || wt=$(dirname $(dirname $(dirname "$patch")))
+  echo "(patch does not apply to /repo HEAD; differential run in $wt)"
+  git -C "$wt" checkout -q -- . ; run "$wt" > $vd/base.txt
+  git -C "$wt" apply "$patch" && run "$wt" > $vd/with.txt; git -C "$wt" checkout -q -- .
+  diff $vd/base.txt $vd/with.txt | grep '^>' | head -30
+fi
 rm -rf $vd
